@@ -305,7 +305,8 @@ def case_scatter(ctx, nx, frames):
     ctx.bounds.update(nx=nx, frames=frames, mask="every 0/1 mask with exactly the number of ones the data has (all counts)")
     import itertools
     for bits in itertools.product([0, 1], repeat=nx * nx):
-        mask = numpy.array(bits).reshape(nx, nx)
+      for mdt in (int, bool, float):
+        mask = numpy.array(bits).reshape(nx, nx).astype(mdt)          # masks come as int, bool or float arrays
         ns = int(mask.sum())
         data = symarr("s", (frames, 2, ns))
         with npx.symbolic(w):
@@ -315,8 +316,8 @@ def case_scatter(ctx, nx, frames):
         back = out[:, :, mask == 1]
         rest = out[:, :, mask != 1]
         goal = conj(eqs(back, data) + eqs(rest, numpy.zeros(rest.shape)))
-        ctx.prove("mask=%s: read-back through the mask is the identity, other cells zero" % "".join(map(str, bits)), [], goal,
-                  replay=lambda m, mask=mask, data=data: replay_scatter(mask, m(data)))
+        ctx.prove("mask=%s (%s): read-back through the mask is the identity, other cells zero" % ("".join(map(str, bits)), numpy.dtype(mdt).name), [], goal,
+                  replay=lambda m, mask=mask, data=data: replay_scatter(mask, numpy.asarray(m(data), dtype=float) + 0.25))
 
 
 def build_cases(tier):
